@@ -493,3 +493,17 @@ package entities
 
 //@ func NewInfoElement(name, ieID, ieType, entID, len) (r)
 //@   ensures r: r != nil && fresh(r) && r.Name == name && r.ElementId == ieID && r.DataType == ieType && r.EnterpriseId == entID && r.Len == len
+
+//@ // firstNamed: list[idx] is the first element of the list whose name is `name`
+//@ pure firstNamed(L []InfoElementWithValue, name string, idx int) bool = 0 <= idx && idx < len(L) && ie(L[idx]).Name == name
+//@     && (forall j in [0, idx): ie(L[j]).Name != name)
+//@ pure noneNamed(L []InfoElementWithValue, name string) bool = forall j in [0, len(L)): ie(L[j]).Name != name
+//@
+//@ func (b *baseRecord) GetInfoElementWithValue(name) (e, idx, ok)
+//@   requires recv: b != nil && elemsNN(b.orderedElementList, len(b.orderedElementList))
+//@   ensures  found: ok ==> firstNamed(b.orderedElementList, name, idx) && e == b.orderedElementList[idx]
+//@   ensures  none:  !ok ==> isnil(e) && idx == 0 && noneNamed(b.orderedElementList, name)
+//@   noeffect
+//@   loop 1 invariant cnt: 0 <= $i && $i <= len(b.orderedElementList)
+//@   loop 1 invariant none: forall j in [0, $i): ie(b.orderedElementList[j]).Name != name
+//@   loop 1 decreases len(b.orderedElementList) - $i
